@@ -193,9 +193,16 @@ func (c JSONArrayCodec) Read(data []byte, ptr unsafe.Pointer, wt plenccore.WireT
 	offset := n
 
 	a := *(*[]any)(ptr)
-	if a == nil {
+	if a == nil || uint64(len(a)) != count {
+		// The slice must hold exactly the entries in the data, whatever the
+		// target held before
 		a = make([]any, count)
 		*(*[]any)(ptr) = a
+	} else {
+		// Entries are only written where the data has a value
+		for i := range a {
+			a[i] = nil
+		}
 	}
 
 	for i := range a {
